@@ -155,6 +155,7 @@ Section Layout.
                    (mkFl2 [] (major d (c_maxh c) (c_maxw c) - f1_nonflex p1) 0 (f1_minor p1) 0%nat) p2 Hall F1 I E2).
         - injection E2 as <-. exact F1. }
       destruct (flex_spaces _ _ _) as [sp| | |]; try discriminate. cbn [bind] in E.
+      rewrite flex_place_chk_ok in E. cbn [bind] in E.
       destruct (fold_left (flex_place _ _ _) _ _) as [placed off] eqn:E3.
       destruct (from_axes d off (f2_minor p2)) as [h w].
       destruct (ct_clamp c h w) as [hw| | |]; try discriminate. cbn [bind] in E. injection E as <-. cbn [l_kids].
@@ -164,6 +165,7 @@ Section Layout.
       destruct (if sz_h =? 0 then _ else _)%N as [ch| | |]; try discriminate. cbn [bind] in E.
       destruct (if sz_w =? 0 then _ else _)%N as [cw| | |]; try discriminate. cbn [bind] in E.
       destruct (layout vc v _) as [t0| | |] eqn:El; try discriminate. cbn [bind] in E.
+      rewrite !align_chk_ok in E. cbn [bind] in E.
       destruct (if align_eqb av AShrink then _ else _) as [x| | |]; try discriminate. cbn [bind] in E.
       destruct (if align_eqb ah AShrink then _ else _) as [y| | |]; try discriminate. cbn [bind] in E.
       injection E as <-. cbn [l_kids]. eexists _, _. split; [reflexivity|]. apply fits_set_pos. eapply IHv; eauto.
